@@ -188,7 +188,8 @@ PROPS = {
         "level": "exploration",
         "rule": "two engines. (a) component histories (vq-cc): CUBIC and BBRv2 driven through the CongestionController trait with seeded legal "
                 "histories (send / rtt update / ack / loss with persistent congestion and loss bursts / ECN / MTU change / discard, datagram "
-                "sizes 1200..9000) against a shadow of outstanding packets, checked after every call. (b) live gating (vq-sim): the proxy around "
+                "sizes 1200..9000) against a shadow of outstanding packets, checked after every call; every loss-detection pass is also fed to "
+                "recovery::persistent_congestion::Calculator, whose duration must equal a batch model of RFC 9002 7.6.2. (b) live gating (vq-sim): the proxy around "
                 "the real controllers of live connections records every call; each congestion-controlled send must happen with bytes in flight "
                 "below the window unless the packet_sent event names a PTO probe or the controller required a fast retransmission; window floor "
                 "(2 / 4 datagrams) and CUBIC monotonicity on loss/ECN are checked on every live call. Non-trivial = loss, persistent congestion, "
@@ -473,7 +474,8 @@ PROPS["C20"] = {
     "level": "exploration",
     "rule": "each evaluation is one scenario of 1-6 dc streams between the crate's testing Client/Server: UDP inside the bach simulator with a "
             "seeded faulty network (random / burst / k-th packet loss 0.1-30 %, duplication, jitter => reordering, MTU 1250..8940, blackhole, "
-            "mute server, server drop_state), including a fault enumeration (a small flow re-run once per k with exactly its k-th packet "
+            "mute server, server drop_state, the peer vanishing right behind the packet that announces the final offset while a gap remains; writers "
+            "using AsyncWrite, Writer::write_from and write_all_from_fin), including a fault enumeration (a small flow re-run once per k with exactly its k-th packet "
             "dropped), and TCP over loopback. Oracle: position-keyed PRF bytes in both directions; every read checked at its absolute position, "
             "never ahead of what was written; Ok(0) only at the length the writer finished at; with a vanished peer or forgotten secrets the "
             "operations fail within idle timeout (+5 s); nothing may still be pending at the virtual deadline. A stream that reports an "
